@@ -19,9 +19,9 @@ CLAIMS = {
     'C03': dict(tech=TECH_VK, ref='4 C03',
                 text='Each of the nine rule functions proved equal to its RFC 5892 Appendix A spec for all labels and all usize positions (incl. transparent-run scans of any length, regexp reading as lemma); ten membership tables and the registry proved against the raw UCD 6.3.0 files / RFC code point lists by Kani for all u32.',
                 note='independent UCD oracle parser trusted; table predicates are uninterpreted on the Verus side and tied to the real tables by the Kani ledger.'),
-    'C04': dict(tech=TECH_V, ref='4 C04',
+    'C04': dict(tech=TECH_VK, ref='4 C04',
                 text='prepare/enforce of both username profiles proved equal to the composition width -> non-empty -> IdentifierClass -> [lowercase] -> NFC -> non-empty -> directionality as a function of the input contents, errors included.',
-                note='NFC is the uninterpreted spec_nfc; directionality is the implemented language (finding F5 is carried by C09).'),
+                note='NFC is the uninterpreted spec_nfc; directionality is the implemented language (finding F5 is carried by C09); the rule contracts of C02/C09/C10/C11 count for this property (DEPS), width table and lowercase trigger by Kani, per-code-point X lemmas width_cp / lower_cp.'),
     'C05': dict(tech=TECH_VK, ref='4 C05',
                 text='OpaqueString prepare/enforce/additional_mapping_rule proved against the RFC 8265 4.2 pipeline; space mapping equals a per-character map for every position of the first mapped space; Zs table by Kani.',
                 note='NFC uninterpreted.'),
@@ -43,9 +43,9 @@ CLAIMS = {
     'C12': dict(tech=TECH_VK, ref='4 C12',
                 text='trim_spaces proved equal to the recursive RFC 8266 spec collapse() for all strings (byte offsets, any mix of 1-4 byte characters); lemmas: no leading/trailing/double space, only U+0020, non-space characters kept in order, idempotent; password mapping likewise.',
                 note='Zs membership is the uninterpreted zs(), tied to the real table and UCD by Kani.'),
-    'C13': dict(tech=TECH_V, ref='4 C13',
+    'C13': dict(tech=TECH_VK, ref='4 C13',
                 text='stabilize proved against a relational contract over the caller\'s closure (fixed point reachable within 3 changing applications; own error; Invalid only after 4 changing applications) and a deterministic reading stab(st, s, 3).',
-                note='the clause "never applies f more than four times" counts calls and is not expressible as a postcondition; not claimed (see DESIGN).'),
+                note='the clause "never applies f more than four times" counts calls and is not expressible as a Verus postcondition; it is proved by Kani (result and exact number of applications) for every rule function over a 5-element state space, every start state, borrowed and owned results - within four applications stabilize can see at most five distinct strings and, by the Verus contract, depends only on their equality pattern; for rule functions outside that family the count is not claimed.'),
     'C14': dict(tech=TECH_VK, ref='4 C14',
                 text='Decision list order proved in Verus against the RFC 8264 section 8 list over table predicates; every table predicate proved equal to its UCD 6.3.0 set by Kani for all 2^32 values; class relation lemma; non-scalars never valid.',
                 note='HasCompat is defined as "NFKC(cp) != cp" over the uninterpreted normaliser and has_compat is verified against that definition; the exhaustive native lemma `derived` (kind X) cross-checks all of 0..=0x10FFFF on the real code; oracle parser trusted.'),
@@ -56,8 +56,8 @@ CLAIMS = {
                 text='Nickname: proved (lemma over the stabilize + nick_step contracts) that every accepted result is a fixed point, re-validated by FreeformClass, free of DISALLOWED/UNASSIGNED code points and re-enforced unchanged. Usernames/OpaqueString: validation-precedes-mapping is proved as part of the pipeline contracts; the per-code-point lemma "lowercase of a valid character stays non-forbidden" is evaluated exhaustively over all scalar values on the real code (listed known finding: Cherokee U+13A0..U+13F4); the NFC half rests on named unchecked axioms.',
                 note='NOT fully decided: the three algebraic facts about the external normaliser (idempotent, preserves validity, introduces no mappable character) are assumptions no contract on precis code can discharge; bounded corpus search is a stand-in and is labelled so.'),
     'C16': dict(tech=TECH_V, ref='4 C16',
-                text='Sequential half only: every operation has a functional postcondition over the argument contents (not over self or history); the PrecisFastInvocation functions are proved equal to the instance specs.',
-                note='no claim about thread interleavings or first-use races of lazy_static (outside this technique).'),
+                text='Every operation has a functional postcondition over the argument contents (not over self or history), the pipeline contracts of C04-C07 count for this property; the PrecisFastInvocation functions are proved equal to the instance specs; frame condition checked syntactically on every run: no shared mutable state (static mut, atomics, cells, locks, thread_local, unsafe, lazy statics of other types) in the two crates.',
+                note='interleavings are not verified (Kani has no threads): the frame scan only degrades the check (exit 2), the native thread clause samples 8 threads from first use of the lazy statics.'),
     'C18': dict(tech=TECH_K, ref='4 C18',
                 text='All comparison operators of Codepoints vs u32 in both directions proved coherent over all 2^97 (entry, code point) combinations, including the reversed empty entries the generator emits; increasing entries give a monotone comparator.',
                 note='run on the generated public.rs inside precis-core.'),
